@@ -192,11 +192,15 @@ func runC11(c *core.Ctx) {
 func runC11Foreign(c *core.Ctx) {
 	t := c.T
 	n := 1 + t.Intn(12)
+	long := &codecs.VP8Packet{} // the statement does not say "fresh": a receiver with a history must decode the same values
 	for k := 0; k < n; k++ {
 		d, desc := genVP8Desc(t)
 		payload := t.Bytes(t.Intn(20))
 		pkt := append(append([]byte{}, desc...), payload...)
 		rx := &codecs.VP8Packet{}
+		if k%2 == 1 {
+			rx = long
+		}
 		var out []byte
 		var err error
 		if c.Guard("codecs.VP8Packet.Unmarshal", func() { out, err = rx.Unmarshal(pkt) }) {
@@ -219,9 +223,16 @@ func runC11Foreign(c *core.Ctx) {
 		names := []string{"X", "N", "S", "PID", "I", "L", "T", "K", "PictureID", "TL0PICIDX", "TID", "Y", "KEYIDX"}
 		for i := range got {
 			if got[i] != want[i] {
-				c.Violate("foreign", "C11/foreign/field/"+names[i], "descriptor %x: decoded %s=%d, encoded %d", desc, names[i], got[i], want[i])
+				who := ""
+				if rx == long {
+					who = "/receiver-with-history"
+				}
+				c.Violate("foreign", "C11/foreign/field/"+names[i]+who, "descriptor %x: decoded %s=%d, encoded %d (receiver used before: %v)", desc, names[i], got[i], want[i], rx == long)
 				return
 			}
+		}
+		if rx != long {
+			c.Guard("codecs.VP8Packet.Unmarshal", func() { _, _ = long.Unmarshal(pkt) }) // builds the history
 		}
 		if !bytes.Equal(out, payload) || !bytes.Equal(rx.Payload, payload) {
 			c.Violate("foreign", "C11/foreign/payload", "descriptor %x: returned %d bytes, %d follow the descriptor", desc, len(out), len(payload))
@@ -394,11 +405,15 @@ func runC12(c *core.Ctx) {
 func runC12Foreign(c *core.Ctx) {
 	t := c.T
 	n := 1 + t.Intn(10)
+	long := &codecs.VP9Packet{} // a receiver with a history must decode the same values as a fresh one
 	for k := 0; k < n; k++ {
 		d, desc := genVP9Desc(t)
 		payload := t.Bytes(t.Intn(16))
 		pkt := append(append([]byte{}, desc...), payload...)
 		rx := &codecs.VP9Packet{}
+		if k%2 == 1 {
+			rx = long
+		}
 		var out []byte
 		var err error
 		if c.Guard("codecs.VP9Packet.Unmarshal", func() { out, err = rx.Unmarshal(pkt) }) {
@@ -422,8 +437,15 @@ func runC12Foreign(c *core.Ctx) {
 			{"Width", fmt.Sprint(append([]uint16{}, d.w...))}, {"Height", fmt.Sprint(append([]uint16{}, d.h...))},
 			{"PGTID", sl8(d.pgtid)}, {"PGU", fmt.Sprint(append([]bool{}, d.pgu...))}, {"PGPDiff", sl88(d.pgpdiff)}, {"Payload", fmt.Sprintf("%x", payload)}}
 		if k, a, b := firstDiff(describe(rx), want); k != "" {
-			c.Violate("foreign", "C12/foreign/field/"+k, "descriptor %x: decoded %s=%s, encoded %s", desc, k, a, b)
+			who := ""
+			if rx == long {
+				who = "/receiver-with-history"
+			}
+			c.Violate("foreign", "C12/foreign/field/"+k+who, "descriptor %x: decoded %s=%s, encoded %s (receiver used before: %v)", desc, k, a, b, rx == long)
 			return
+		}
+		if rx != long {
+			c.Guard("codecs.VP9Packet.Unmarshal", func() { _, _ = long.Unmarshal(pkt) })
 		}
 		if !bytes.Equal(out, payload) {
 			c.Violate("foreign", "C12/foreign/payload", "descriptor %x: returned %d bytes, %d follow the descriptor", desc, len(out), len(payload))
